@@ -192,7 +192,7 @@ Qed.
 Lemma pos_of_assign_kw : forall F fs kt, pos_of (assign_kw F fs kt) = [].
 Proof.
   intros F fs [k t]. cbn [assign_kw].
-  destruct (find_field k fs) as [f|]; [destruct (fd_default f); [destruct (is_unm t); [|destruct (val_eqb (eval t) (fd_val f)); [destruct (f_update F)|destruct (f_fix F)]]|]|destruct (f_fix F)]; reflexivity.
+  destruct (find_field k fs) as [f|]; [destruct (fd_default f); [destruct (has_unm t); [|destruct (val_eqb (eval t) (fd_val f)); [destruct (f_update F)|destruct (f_fix F)]]|]|destruct (f_fix F)]; reflexivity.
 Qed.
 Lemma pos_of_kw_part : forall F fs G l, pos_of (flat_map (kw_part F fs G) l) = [].
 Proof.
@@ -222,10 +222,10 @@ Lemma per_kw : forall F1 F2 fs k t, managed t = true ->
 Proof.
   intros F1 F2 fs k t Hm. cbn [assign_kw]. destruct (find_field k fs) as [f|] eqn:Ef.
   - destruct (fd_default f) eqn:Ed.
-    + rewrite (managed_not_unm t Hm). rewrite funion_update, funion_fix. destruct (val_eqb (eval t) (fd_val f)) eqn:Ev.
-      * destruct (f_update F1); cbn [orb]; [reflexivity|]. cbn [kws_of flat_map to_tree app assign_kw]. rewrite Ef, Ed, (managed_not_unm t Hm), Ev.
+    + rewrite (managed_no_unm t Hm). rewrite funion_update, funion_fix. destruct (val_eqb (eval t) (fd_val f)) eqn:Ev.
+      * destruct (f_update F1); cbn [orb]; [reflexivity|]. cbn [kws_of flat_map to_tree app assign_kw]. rewrite Ef, Ed, (managed_no_unm t Hm), Ev.
         destruct (f_update F2); reflexivity.
-      * destruct (f_fix F1); cbn [orb]; [reflexivity|]. cbn [kws_of flat_map to_tree app assign_kw]. rewrite Ef, Ed, (managed_not_unm t Hm), Ev.
+      * destruct (f_fix F1); cbn [orb]; [reflexivity|]. cbn [kws_of flat_map to_tree app assign_kw]. rewrite Ef, Ed, (managed_no_unm t Hm), Ev.
         destruct (f_fix F2); reflexivity.
     + cbn [kws_of flat_map app assign_kw]. rewrite Ef, Ed. cbn [flat_map app]. rewrite tree_two_runs_compose by exact Hm. reflexivity.
   - rewrite funion_fix. destruct (f_fix F1); cbn [orb]; [reflexivity|]. cbn [kws_of flat_map to_tree app assign_kw]. rewrite Ef.
@@ -242,7 +242,7 @@ Qed.
 Lemma kws_of_assign_kw_shape : forall F fs k t, kws_of (assign_kw F fs (k, t)) = [] \/ exists t', kws_of (assign_kw F fs (k, t)) = [(k, t')].
 Proof.
   intros F fs k t. cbn [assign_kw].
-  destruct (find_field k fs) as [f|]; [destruct (fd_default f); [destruct (is_unm t); [|destruct (val_eqb (eval t) (fd_val f)); [destruct (f_update F)|destruct (f_fix F)]]|]|destruct (f_fix F)];
+  destruct (find_field k fs) as [f|]; [destruct (fd_default f); [destruct (has_unm t); [|destruct (val_eqb (eval t) (fd_val f)); [destruct (f_update F)|destruct (f_fix F)]]|]|destruct (f_fix F)];
     cbn; try (left; reflexivity); right; eexists; reflexivity.
 Qed.
 
